@@ -20,6 +20,18 @@ theorem fromDictFuel_graph (fuel : Nat) (D childDicts : List (String × Val)) (e
   simp only [fromDictFuel, ht, hn, he, str2NIRNode, hc, if_true, bind, Except.bind, pure, Except.pure, graphSpec]
   rfl
 
+/-- … and without an `edges` member it raises (after the children were looked at) -/
+theorem fromDictFuel_graph_noedges (fuel : Nat) (D childDicts : List (String × Val))
+    (ht : lookup "type" D = some (.str "NIRGraph")) (hn : lookup "nodes" D = some (.dict childDicts))
+    (he : lookup "edges" D = none) :
+    fromDictFuel (fuel + 1) (.dict D) =
+      (childDicts.mapM fun (kv : String × Val) => (fromDictFuel fuel kv.2).map fun n => (kv.1, n)).bind fun _ =>
+      .error .keyError := by
+  have hc : Generated.whitelist.contains "NIRGraph" = true := by decide
+  simp only [fromDictFuel, ht, hn, he, str2NIRNode, hc, if_true, bind, Except.bind, pure, Except.pure, throw, throwThe,
+    MonadExceptOf.throw]
+  rfl
+
 /-- the children of the graph are rebuilt one by one, under their own names, in the order the
 file lists them -/
 theorem mapM_children_spec (fuel : Nat) (cd : List (String × Val)) (cs : List (String × Node))
